@@ -203,9 +203,27 @@ func c15RunList(c *core.Ctx, texts []string) {
 	if len(list) == 0 {
 		return
 	}
-	storage := util.Storage(util.Lines(list))
+	// The rules are spread over 1..3 lists (the first rules of the lists then
+	// share their offset inside the list).
+	nl := 1 + c.Rng.Intn(3)
+	parts := make([][]string, nl)
+	for i, t := range list {
+		k := c.Rng.Intn(nl)
+		if i < nl {
+			k = i
+		}
+		parts[k] = append(parts[k], t)
+	}
+	var contents []string
+	for _, p := range parts {
+		contents = append(contents, util.Lines(p))
+	}
+	if nl > 1 {
+		c.Event("rule_sets_split_over_several_lists", 1)
+	}
+	storage := util.Storage(contents...)
 	ce := urlfilter.NewCosmeticEngine(storage)
-	eng := urlfilter.NewEngine(util.Storage(util.Lines(list)))
+	eng := urlfilter.NewEngine(util.Storage(contents...))
 
 	for _, h := range c15Hostnames {
 		// Reference as the property defines it.
